@@ -20,7 +20,11 @@ RULE = ("cases: MarkovChainProcess(StepModel declared in ZERO/CENTER/ONEONE/TILD
         "variance_matrix (the argument of scipy.linalg.sqrtm, observed) against the assembly model with the quadrature outputs as data "
         "(relative 2^-50), diagonal of D D^T against the step second moments (1e-5 + 1e-4 rel: library nquad); second stream: "
         "HEM/Merton/VG/CGMY in their own declared representation against quadrature of x*nu(x); CGMY y = 1.0 margins in a copula chain against "
-        "their 1-d chains (oracle of the repaired F-C04-5).  non-trivial = distinct chain with >= 2 states on a side")
+        "their 1-d chains (oracle of the repaired F-C04-5); F-C04-6 stream (deterministic): variance added to each margin by the copula chain (diagonal of the "
+        "matrix handed to sqrtm - sigma_k^2) against the 1-d chain of the same margin, on 2-d density tables with / without mass in the strip outside "
+        "the central cube (exact; also the Coq cube model tab2_vadj against the observed matrix, 1e-5 + 1e-4 rel: library nquad) and on CGMY y = 1.3 "
+        "margins under the Clayton, independent and complete-dependence copulas (threshold: 2 % + 1e-6 below the 1-d amount; the deficit is "
+        "cross-checked against an independent quadrature of LevyCopulaModel.mass over the strip).  non-trivial = distinct chain with >= 2 states on a side")
 MODELLED = ["compute_mu_h loop: hand model Model/Drift.v PROVED equal to the py2coq-generated loop Gen/GenTieDrift.v (C04_gen_compute_mu_h_is_model); "
             "vol_adjustment, MarkovChainProcess.__init__/initialisation arithmetic (hand model, exact correspondence)",
             "LevyTriplet.set_representation + the _drift_mapping dict of LevyTriplet.__init__ + the LevyRepresentation enum values: py2coq-generated "
@@ -30,9 +34,14 @@ MODELLED = ["compute_mu_h loop: hand model Model/Drift.v PROVED equal to the py2
             "MCLevyCopulaSimulation.__init__: the unpacking loop over the pool's outputs, the per-margin zeroing loop, variance_matrix = adj + "
             "diag(sigma^2), the joint flag LevyCopulaModel.jump_of_finite_variation = all margins of finite variation (repaired d166938; hand model "
             "Model/CopulaDiffusion.v, tied on the observed argument of sqrtm and on the observed flags); "
-            "NOT modelled: vol_adjustment_ij (scipy nquad of the copula mass; its outputs are data / the function vadj), scipy.linalg.sqrtm, the pool",
+            "NOT modelled: the quadrature inside vol_adjustment_ij (scipy nquad of the copula mass; its outputs are data / the function vadj), scipy.linalg.sqrtm, the pool",
+            "WHAT vol_adjustment_ij integrates (wave 8): on 2-d density tables, tab2_vadj = second moment of x_i (x_i x_j) over the central CUBE "
+            "[-h/2,h/2]^2 (hand model Model/CopulaDiffusion.v after markovchainlevycopula.py:50-81; the Fubini step from the nquad integrand to the "
+            "cube moment is NOT formalised, it is tied numerically by group copulastrip on the matrix handed to sqrtm); general copulas: data",
             "the error value of the generated conversions is a value, not an exception: center_drift on a mis-declared ZERO triplet of infinite "
-            "variation is err + tails in the model while the code raises (outside every guard; skipped by the correspondence)",
+            "variation is err + tails in the GENERATED term while the code raises; the observation wrappers step_set_representation(2) make the "
+            "error absorbing with the explicit hand-written guard setrep_call_raises (a conversion from or to ZERO with infinite variation), and "
+            "the correspondence drives those calls too (wave 8; Example C04_error_value_not_absorbing)",
             "np.sqrt in vol_adjustment / equivalent_diffusion_coefficient: the model works with the squares",
             "first/second moment integrals of the measure: abstract additive m1, non-negative m2 over Q (concrete closed forms: C09)",
             "MarkovChainLevyCopula.initialisation (margins of a copula chain): one drift per margin with the margin's own triplet, flag and axis"]
@@ -44,8 +53,11 @@ ASSUMPTIONS = ["guard of every theorem that quantifies over representations: fv 
                "the truncation bounds are the end points of the axis (C13) and np.inf is any bound >= 1 beyond them (pinf)",
                "LevyRepresentation has exactly the members ZERO=1, CENTER=2, ONEONE=3, TILDE=4 (re-read from the source by the emitter: a change "
                "breaks the generation)",
-               "C04_copula_diagonal_is_margin_chain_partial: vol_adjustment_ij(k,k) returns margin k's second moment over the central cell "
-               "(hypothesis; Fubini on the quadrature, compared numerically only)"]
+               "C04_copula_diagonal_is_margin_chain_if_no_strip_mass_partial: vol_adjustment_ij(k,k) returns margin k's second moment over the margin's "
+               "central cell -- a hypothesis that on /repo holds only for Levy measures without mass in the strip {|x_k| <= h/2, some |x_j| > h/2} "
+               "(independent copula) and is FALSE for copulas with mass off the axes (F-C04-6)",
+               "C04_copula_margin_variance_is_1d_chain_refuted: tab2_vadj is what vol_adjustment_ij returns on a density table (checked numerically "
+               "on the witness itself by group copulastrip, not proved from the nquad integrand)"]
 THEOREM_NOTES = {
     "number system": "proved over Q inside a Section with abstract m1/m2 (simplification of DESIGN 2.1: no R instance; the composition with C09's "
                      "HEM integrals over R -- wave-5 objective (c) -- was not done: Chain.v/Grid.v/Drift.v and C13/C01's lemmas are Q-only, replaying "
@@ -53,39 +65,51 @@ THEOREM_NOTES = {
     "C04_variance_gap": "proved: |sum_k x_k^2 q_k - int_{outside the central cell} x^2 nu| <= sum_k (sup_k x^2 - inf_k x^2) q_k under the per-cell "
                         "hypothesis inf q_k <= int_cell x^2 nu <= sup q_k (C09's positivity, not formally composed); with C04_variance_added "
                         "this is the variance statement for both variation flags",
-    "generated dispatch": "C04_set_representation_dispatch (lands in the target, no-op on the same target, idempotent, calls exactly the registered "
-                          "conversion, unknown key = error), C04_set_representation_route_independent (rep->t1->t2 == rep->t2, no hypothesis on the "
-                          "measure), C04_set_representation_preserves_mean (any target), C04_mean_identity_generated(+_infinite_variation), "
-                          "C04_copula_margins_generated: the wave-1..4 statements on Gen/GenC04SetRep.v; C04_generated_dispatch_is_a_tilde / "
-                          "C04_generated_chain_is_hand_chain link the hand table to it",
-    "copula variance matrix": "C04_copula_variance_matrix_entries: every entry of variance_matrix for every dimension (loop invariant of the unpacking "
-                              "over the pool's outputs + margin loop), symmetric; C04_copula_diagonal_is_margin_chain_partial: (joint flag = all margins fv) "
-                              "the diagonal is the 1-d chain's sigma_h^2 of every margin and cross terms with a finite-variation "
-                              "margin vanish -- PARTIAL: assumes vol_adjustment_ij(k,k) = central-cell second moment of margin k (the nquad "
-                              "quadrature / Fubini identity is not formalised; the repair of F-C04-5 does not remove this hypothesis); the behaviour before the "
-                              "repair (joint flag max BG-index <= 1) survives only as Example C04_copula_joint_flag_before_repair on "
-                              "copula_joint_fv_orig / copula_chain_variance_matrix_orig",
+    "generated dispatch": "C04_set_representation_dispatch is DEFINITIONAL on the generated term (lands in the target, no-op on the same target, "
+                          "idempotent, calls exactly the registered conversion, unknown key = error); since wave 8 (audit 5a B5) its conversion "
+                          "conjuncts carry the guard fv = true or neither side ZERO -- outside it the Python call raises and the generated term is a "
+                          "number (err is not absorbing: Example C04_error_value_not_absorbing), the wrapper step_set_representation is None there. "
+                          "C04_set_representation_route_independent (rep->t1->t2 == rep->t2, no hypothesis on the "
+                          "measure) is genuine; C04_set_representation_preserves_mean (any target); C04_mean_identity_generated(+_infinite_variation), "
+                          "C04_copula_margins_generated and C04_generated_chain_is_hand_chain are REPACKAGING: the wave-1..4 statements transported "
+                          "through the tie C04_generated_dispatch_is_a_tilde (definitional)",
+    "copula variance matrix": "C04_copula_variance_matrix_entries (genuine, hand model): every entry of variance_matrix for every dimension (loop invariant of "
+                              "the unpacking over the pool's outputs + margin loop), symmetric. C04_copula_diagonal_is_margin_chain_if_no_strip_mass_partial "
+                              "(renamed from ..._is_margin_chain_partial; CONDITIONAL + repackaging: entries + a rewrite, m2s/ls/rs/h only occur through the "
+                              "hypothesis): IF vol_adjustment_ij(k,k) = margin k's central-cell second moment THEN the diagonal is the 1-d sigma_h^2; "
+                              "cross terms with a finite-variation margin vanish (unconditional). The hypothesis is FALSE on /repo for copulas with mass "
+                              "off the axes: C04_copula_margin_variance_is_1d_chain_refuted (witness table, finding F-C04-6) and C04_copula_diagonal_gap "
+                              "(bookkeeping: diagonal = 1-d sigma_h^2 - (central-cell moment - vol_adjustment_ij(k,k))). Not proved: that the nquad "
+                              "integrand of vol_adjustment_ij integrates to the cube moment (Fubini), nor 0 <= strip gap for every table (monotonicity of "
+                              "the clipped moments; true, not done). The behaviour before the repair of F-C04-5 survives only as Example "
+                              "C04_copula_joint_flag_before_repair",
+    "F-C04-6": "the property's literal d-dimensional variance clause still holds (the lost x_k^2 of the strip cells is bounded by their oscillation "
+               "(h/2)^2 times their mass); what fails is 'each margin of a copula chain' read as sigma_h^2 of margin k = sigma_k^2 + second moment "
+               "of margin k's central cell: the copula chain's margin is under-dispersed relative to its own 1-d chain by the second moment of x_k "
+               "over {|x_k| <= h/2, some |x_j| > h/2} (same order h^(2-Y) as the amount added). Recorded as known, not repaired (a repair changes "
+               "vol_adjustment_ij's integration domain per entry: not a two-line change, and the cross terms need a decision)",
     "tie": "C04_gen_compute_mu_h_is_model: GenTieDrift.compute_mu_h (the enumerate loop of markovchain.py, regenerated every run) = Drift.compute_mu_h, "
            "for every mass, middle, axis and origin",
     "copula margins": "C04_copula_margins: every margin of the REPAIRED copula chain (per-margin cut-off flag, fix-grid2 9ea0f4f; own axis, "
                       "fix-grid 7d6dfd9) reproduces its mean; C04_joint_flag_bias quantifies the bias of the previous code (F-C04-2)",
     "satisfiability": "total additivity of int x nu is assumed only by the finite-variation theorem; C04_mean_identity_infinite_variation "
                       "(CENTER/ONEONE/TILDE) needs no hypothesis on the first-moment integral; Examples C04_nonvacuous, C04_dispatch_nonvacuous, "
-                      "C04_copula_matrix_nonvacuous, C04_copula_joint_flag_before_repair",
+                      "C04_error_value_not_absorbing, C04_copula_matrix_nonvacuous, C04_copula_strip_witness_values, C04_copula_joint_flag_before_repair",
     "cancellation": "C04_mean_identity alone is (X - mu_h) + mu_h = X plus the conversion algebra; its content is C04_mu_h_is_sum (the loop is "
                     "sum x_k q_k with C01's q), C04_mean_rate_explicit (the right-hand side in terms of int_l^r x nu) and "
                     "C04_conversions_preserve_mean (all four generated conversions keep the first cumulant)",
 }
-LEVEL_TEXT = ("Proof: 24 Coq theorems + 4 examples (closed under the global context): compute_mu_h's running-boundary loop equals sum_k x_k q_k for "
+LEVEL_TEXT = ("Proof: 26 Coq theorems + 6 examples (closed under the global context): compute_mu_h's running-boundary loop equals sum_k x_k q_k for "
               "every axis and is the py2coq-generated loop of markovchain.py (tie lemma); process_drift + sum_k x_k q_k equals the first cumulant per unit time of (a, sigma, nu|[l,r]) in the declared "
               "representation for all four representations and both variation flags, stated on the py2coq-generated dispatch "
               "LevyTriplet.set_representation (+ _drift_mapping + enum values) and the four generated conversions; the dispatch lands in its "
               "target, is idempotent, route independent and keeps the first cumulant; sigma_h^2 = sigma^2 for finite variation and sigma^2 + "
               "second moment of the central cell otherwise; variance-gap bound; every entry of the copula chain's variance_matrix for every "
-              "dimension (loop invariants) with the joint flag = all margins of finite variation, its diagonal = the 1-d sigma_h^2 of each margin (partial: the "
-              "quadrature vol_adjustment_ij is a hypothesis). Tied to /repo by exact vm_compute correspondence on dyadic step-measure chains in "
+              "dimension (loop invariants) with the joint flag = all margins of finite variation; its diagonal equals the 1-d sigma_h^2 of a margin only "
+              "under the hypothesis that the measure has no mass in the strip outside the central cube (independent copula) -- REFUTED otherwise "
+              "(F-C04-6, known: vol_adjustment_ij(k,k) integrates the central cube; witness table 1/384 against 1/96, Clayton -6.2 % / -3.1 %). Tied to /repo by exact vm_compute correspondence on dyadic step-measure chains in "
               "all 8 configurations, on set_representation for all 16 pairs x 2 flags (one and two calls), on copula drift vectors and on the "
-              "observed variance_matrix and joint/margin flags. Finding F-C04-5 (joint flag max BG-index <= 1 left CGMY y = 1 margins of a copula "
+              "observed variance_matrix and joint/margin flags, and on density-table copula chains for the cube model of vol_adjustment_ij. Finding F-C04-5 (joint flag max BG-index <= 1 left CGMY y = 1 margins of a copula "
               "chain without small-jump variance) repaired by d166938; its oracle (CGMY y = 1.0 margins against their 1-d chains) stays in the check.")
 LEVEL_NOTE = ("Trusted: Coq kernel + vm_compute; py2coq + emitter py2coq_c04; floats modelled as Q (exact on dyadic inputs); Section hypotheses on "
               "m1/m2 (C09); scipy nquad / sqrtm outside the model.")
@@ -270,6 +294,7 @@ def correspond(res):
     _copula_margins(res, rng, viol)
     _copula_drift(res, rng, viol, groups, 10 if not thorough else 80)
     _set_representation(res, rng, viol, groups, 160 if not thorough else 1600)
+    _copula_strip(res, rng, viol, groups)
 
     header = ("From Coq Require Import ZArith QArith Qabs List Bool.\nFrom RV Require Import Base.QB Model.Grid Gen.GenC01Trunc Gen.GenC04Triplet "
               "Gen.GenC04SetRep Model.Chain Model.Drift Model.DriftGen Model.CopulaDiffusion.\nOpen Scope Q_scope.")
@@ -278,7 +303,7 @@ def correspond(res):
         if not cs:
             res.broke(f"correspondence {gname}", "the generator produced no case for this group")
             continue
-        bad, _ = parallel_coq_bad(PROP, f"cases_{gname}", header, ty_, chk, cs, shard=(2 if gname in ("copuladrift", "copulasig2", "copulavarmatrix") else 10), jobs=14)
+        bad, _ = parallel_coq_bad(PROP, f"cases_{gname}", header, ty_, chk, cs, shard=(2 if gname in ("copuladrift", "copulasig2", "copulavarmatrix", "copulastrip") else 10), jobs=14)
         if bad:
             res.broke(f"correspondence {gname}", f"model and implementation differ on {len(bad)} case(s), first: {cs[bad[0]][:1500]}")
         else:
@@ -592,6 +617,207 @@ def _copula_drift(res, rng, viol, groups, n_cases):
             viol(f"initialising the copula chain raises {type(e).__name__}", reason=str(e)[:200], **ctx)
 
 
+
+STRIP_WITNESS = [("0", "1", "0", "1", "1"), ("-1", "0", "-1", "0", "1")]
+STRIP_REL, STRIP_ABS = 0.02, 1e-6        # oracle threshold: the copula chain adds less than (1 - 2 %) of what the 1-d chain adds
+
+
+def _strip_table_case(pieces, axis, o, h, sigmas):
+    """real entry points on a 2-d density table whose margins are flagged infinite variation: the matrix handed to sqrtm by
+    MarkovChainLevyCopula(...).initialisation, and sigma_h^2 - sigma^2 of MarkovChainProcess on each margin"""
+    from rpylib.process.markovchain.markovchainlevycopula import MarkovChainLevyCopula
+    from rpylib.distribution.sampling import SamplingMethod
+    from rpylib.grid.spatial import CTMCGrid
+    from stepmeasure import Table2, table_copula_model, StepModel
+    t = Table2([tuple(Fr(v) for v in p) for p in pieces])
+    with warnings.catch_warnings():
+        warnings.simplefilter("ignore")
+        model = table_copula_model(t, sigma=tuple(sigmas), strict=False, fv=(False, False))
+        grid = CTMCGrid(h=float(h), origin_coordinate=o, axes=[np.array(axis, dtype=float), np.array(axis, dtype=float)])
+        with _record_sqrtm() as rec:
+            p = MarkovChainLevyCopula(levy_copula_model=model, grid=grid, method=SamplingMethod.INVERSION)
+            p.initialisation(_product())
+        vm_in = np.array(rec[-1], dtype=float)
+        added_1d = []
+        for k in (0, 1):
+            nu_k = t.margin(k, strict=False)
+            nu_k.finite_variation = False
+            m1 = StepModel(nu_k, a=0.0, sigma=sigmas[k])
+            p1 = build_process(m1, CTMCGrid(h=float(h), origin_coordinate=o, axes=[np.array(axis, dtype=float)]), initialise=False)
+            added_1d.append(float(p1.equivalent_diffusion_coefficient) ** 2 - float(sigmas[k]) ** 2)
+    added_cop = [float(vm_in[k][k]) - float(sigmas[k]) ** 2 for k in (0, 1)]
+    return t, vm_in, added_cop, added_1d
+
+
+def _table_moments(t, h, k):
+    """exact: second moment of x_k over the central cube and over margin k's central cell (independent Fraction arithmetic)"""
+    hh = Fr(h) / 2
+    cube = strip = Fr(0)
+    for lo1, hi1, lo2, hi2, d in t.pieces:
+        b = [(lo1, hi1), (lo2, hi2)]
+        lk, uk = max(b[k][0], -hh), min(b[k][1], hh)
+        if lk >= uk:
+            continue
+        m2 = (uk ** 3 - lk ** 3) / 3
+        lj, uj = max(b[1 - k][0], -hh), min(b[1 - k][1], hh)
+        strip += d * m2 * (b[1 - k][1] - b[1 - k][0])
+        if lj < uj:
+            cube += d * m2 * (uj - lj)
+    return cube, strip
+
+
+def _strip_real_case(specs, copula, h):
+    """real margins (CGMY ...) under a named copula, uniform grid: variance added to each margin by the copula chain / by its 1-d chain,
+    and -- deterministic quadrature of LevyCopulaModel.mass, independent of vol_adjustment_ij -- the second moment of x_k over the
+    part of margin k's central cell OUTSIDE the central cube: 2 int_0^{h/2} s mass([s,h/2] x {|x_j| > h/2}) ds + the negative side"""
+    import scipy.integrate
+    from rpylib.process.markovchain.markovchainlevycopula import MarkovChainLevyCopula
+    from rpylib.distribution.sampling import SamplingMethod
+    from rpylib.grid.spatial import CTMCUniformGrid
+    from stepmeasure import build_copula_model, build_model
+    with warnings.catch_warnings():
+        warnings.simplefilter("ignore")
+        model = build_copula_model(specs, copula)
+        grid = CTMCUniformGrid(h=h, model=model)
+        with _record_sqrtm() as rec:
+            p = MarkovChainLevyCopula(levy_copula_model=model, grid=grid, method=SamplingMethod.INVERSION)
+            p.initialisation(_product())
+        vm_in = np.array(rec[-1], dtype=float)
+        added_cop, added_1d, strip = [], [], []
+        tr = [tuple(float(v) for v in t_) for t_ in grid.truncations]
+        mass = p.model.mass
+        for k in (0, 1):
+            m1 = build_model(specs[k])
+            p1 = build_process(m1, CTMCUniformGrid(h=h, model=m1), initialise=False)
+            s2 = float(m1.diffusion_coefficient()) ** 2
+            added_1d.append(float(p1.equivalent_diffusion_coefficient) ** 2 - s2)
+            added_cop.append(float(vm_in[k][k]) - s2)
+            j = 1 - k
+
+            def box(sk_lo, sk_hi, j_lo, j_hi):
+                a, b = [0.0, 0.0], [0.0, 0.0]
+                a[k], b[k], a[j], b[j] = sk_lo, sk_hi, j_lo, j_hi
+                return float(mass(a=a, b=b))
+            tot = 0.0
+            for j_lo, j_hi in ((h / 2, tr[j][1]), (tr[j][0], -h / 2)):
+                tot += scipy.integrate.quad(lambda s: 2 * s * box(s, h / 2, j_lo, j_hi), 0.0, h / 2, limit=200)[0]
+                tot += scipy.integrate.quad(lambda s: -2 * s * box(-h / 2, s, j_lo, j_hi), -h / 2, 0.0, limit=200)[0]
+            strip.append(tot)
+    return vm_in, added_cop, added_1d, strip
+
+
+def _under_dispersed(added_cop, added_1d):
+    return added_1d > 10 * STRIP_ABS and added_cop < (1 - STRIP_REL) * added_1d - STRIP_ABS
+
+
+def _copula_strip(res, rng, viol, groups):
+    """F-C04-6 (audit 5a B6): the variance the copula chain adds to margin k (diagonal of the matrix handed to sqrtm minus sigma_k^2)
+    against the variance the 1-d chain of the SAME margin adds (equivalent_diffusion_coefficient^2 - sigma_k^2).  Oracle on the
+    implementation alone; deterministic (exact tables / quadrature), no Monte Carlo.  Streams: 2-d density tables with mass in the
+    strip outside the cube (witness), tables without (control), CGMY margins under the Clayton, independent and
+    complete-dependence copulas.  The tables also tie tab2_vadj (Model/CopulaDiffusion.v: the central CUBE) to the observed matrix."""
+    cases = []
+    tables = [("witness", STRIP_WITNESS, [-1.0, -0.5, 0.0, 0.5, 1.0], 2, 0.5, (0.5, 0.25)),
+              # control: support inside the cube + outside both strips: cube moment = strip moment, no under-dispersion
+              ("control", [("0", "1/4", "0", "1/4", "4"), ("-1/4", "0", "-1/4", "0", "2"), ("1/2", "1", "1/2", "1", "1")],
+               [-1.0, -0.5, 0.0, 0.5, 1.0], 2, 0.5, (0.25, 0.5)),
+              # mass in one strip only (|x_0| small, x_1 large): margin 0 under-dispersed, margin 1 not
+              ("one-strip", [("0", "1/4", "1/2", "2", "1"), ("0", "1/4", "0", "1/4", "2"), ("-1", "-1/2", "-2", "-1", "1")],
+               [-2.0, -1.0, -0.5, 0.0, 0.5, 1.0, 2.0], 3, 0.5, (0.0, 0.25))]
+    for name, pieces, axis, o, h, sigmas in tables:
+        ctx = dict(kind="copula-variance-strip", source="table", table=[list(p) for p in pieces], axis=axis, o=o, h=h, sigmas=list(sigmas))
+        try:
+            t, vm_in, added_cop, added_1d = _strip_table_case(pieces, axis, o, h, sigmas)
+        except Exception as e:  # noqa
+            viol(f"initialising the copula chain of a density table raises {type(e).__name__}", reason=str(e)[:200], **ctx)
+            continue
+        for k in (0, 1):
+            cube, strip = _table_moments(t, h, k)
+            res.count(("copula-strip-table", name, k), kind=f"copula chain vs 1-d chain variance, table ({'gap' if cube < strip else 'no gap'} expected)")
+            res.bump("copula_strip", f"table {name} margin {k}: cube {cube} / margin cell {strip}")
+            if abs(added_1d[k] - float(strip)) > 1e-9 + 1e-9 * float(strip):
+                viol("1-d chain of a table margin: sigma_h^2 - sigma^2 is not the second moment of the margin's central cell",
+                     margin=k, got=added_1d[k], want=float(strip), **ctx)
+            if _under_dispersed(added_cop[k], added_1d[k]):
+                viol("copula chain: the variance added to a margin of infinite variation is smaller than what the 1-d chain of the same "
+                     "margin adds (vol_adjustment_ij(k,k) integrates the central CUBE, not the margin's central cell)",
+                     finding="F-C04-6", margin=k, added_by_copula_chain=added_cop[k], added_by_1d_chain=added_1d[k], **ctx)
+            elif cube < strip * (1 - Fr(3, 100)):
+                res.broke("oracle copulastrip", f"table {name} margin {k}: exact cube moment {cube} < margin-cell moment {strip} but the oracle "
+                                                f"saw added_cop={added_cop[k]} added_1d={added_1d[k]}")
+        cases.append(f"({t.coq()}, {qlit(Fr(h))}, {qlit(Fr(sigmas[0]))}, {qlit(Fr(sigmas[1]))}, "
+                     f"{lst([lst([qlit(float(v)) for v in row]) for row in vm_in])}, {lst([qlit(v) for v in added_1d])}, {qlit(t.support_bound())})")
+    groups.append(("copulastrip", "list (Q * Q * Q * Q * Q) * Q * Q * Q * list (list Q) * list Q * Q",
+                   "fun c => match c with (t, h, s0, s1, e, e1, big) => let m := table_chain_variance_matrix t h s0 s1 in "
+                   "Nat.eqb (length m) (length e) && forallb (fun rr => Nat.eqb (length (fst rr)) (length (snd rr)) && "
+                   "forallb (fun xy => Qle_bool (Qabs (fst xy - snd xy)) ((1 # 100000) + (1 # 10000) * Qabs (fst xy))) (combine (fst rr) (snd rr))) (combine m e) "
+                   "&& forallb (fun ke => Qle_bool (Qabs (tab2_margin_m2 t big (fst ke) (- (h / 2)) (h / 2) - snd ke)) (1 # 1000000000)) (combine [0%nat; 1%nat] e1) end",
+                   cases))
+    # real margins: CGMY y = 1.3 (infinite variation) under three copulas
+    sp = [{"family": "CGMY", "kwargs": dict(c=0.05, g=10.0, m=8.0, y=1.3)}, {"family": "CGMY", "kwargs": dict(c=0.08, g=12.0, m=9.0, y=1.3)}]
+    for copula in ("clayton", "independent", "dependent"):
+        ctx = dict(kind="copula-variance-strip", source="real", models=sp, copula=copula, h=0.1)
+        try:
+            vm_in, added_cop, added_1d, strip = _strip_real_case(sp, copula, 0.1)
+        except Exception as e:  # noqa
+            if copula == "dependent":
+                res.notes.append(f"copula-variance-strip: complete-dependence copula not evaluated ({type(e).__name__}: {str(e)[:80]})")
+                continue
+            viol(f"initialising the copula chain raises {type(e).__name__}", reason=str(e)[:200], **ctx)
+            continue
+        for k in (0, 1):
+            res.count(("copula-strip-real", copula, k), kind=f"copula chain vs 1-d chain variance, CGMY y=1.3 / {copula}")
+            res.bump("copula_strip", f"{copula} margin {k}: copula chain {added_cop[k]:.6f} / 1-d chain {added_1d[k]:.6f} "
+                                     f"({100 * (added_cop[k] / added_1d[k] - 1):+.1f} %), strip outside the cube by quadrature {strip[k]:.6f}")
+            if _under_dispersed(added_cop[k], added_1d[k]):
+                viol("copula chain: the variance added to a margin of infinite variation is smaller than what the 1-d chain of the same "
+                     "margin adds (vol_adjustment_ij(k,k) integrates the central CUBE, not the margin's central cell)",
+                     finding="F-C04-6", margin=k, added_by_copula_chain=added_cop[k], added_by_1d_chain=added_1d[k],
+                     strip_outside_cube_by_quadrature=strip[k], **ctx)
+            elif copula == "clayton":
+                res.broke("oracle copulastrip", f"Clayton margin {k}: no under-dispersion seen (added_cop={added_cop[k]}, added_1d={added_1d[k]}): "
+                                                "if /repo repaired F-C04-6 the model tab2_vadj and the finding must be revisited")
+
+
+def _strip_rerun(r):
+    """re-run a recorded F-C04-6 case on the implementation -> (added_cop, added_1d, explained): explained = the gap is the second
+    moment of x_k over the strip outside the central cube (exact for tables, quadrature of the copula mass for real margins)"""
+    k = int(r["margin"])
+    if r.get("source") == "table":
+        t, vm_in, added_cop, added_1d = _strip_table_case([tuple(p) for p in r["table"]], r["axis"], r["o"], r["h"], r["sigmas"])
+        cube, strip = _table_moments(t, r["h"], k)
+        ok = (abs(added_cop[k] - float(cube)) <= 1e-5 + 1e-4 * float(cube) and abs(added_1d[k] - float(strip)) <= 1e-9 and cube < strip)
+        return added_cop[k], added_1d[k], ok
+    vm_in, added_cop, added_1d, strip = _strip_real_case(r["models"], r["copula"], r["h"])
+    gap = added_1d[k] - added_cop[k]
+    return added_cop[k], added_1d[k], (strip[k] > 0 and abs(gap - strip[k]) <= 0.01 * added_1d[k] + 1e-6)
+
+
+def matches_known(v, known):
+    """F-C04-6 only.  A violation is the recorded one iff, RE-RUN on the implementation, (1) the copula chain still adds less than
+    the 1-d chain of the same margin (same threshold as the oracle) and (2) the deficit is explained by the recorded cause: it equals
+    the second moment of x_k over the part of the margin's central cell outside the central cube (exact on tables; independent
+    quadrature of LevyCopulaModel.mass within 1 % of the 1-d amount on real margins).  Anything else (e.g. no variance at all,
+    a wrong cross term, a gap of another size) is unlisted."""
+    if known.get("id") != "F-C04-6":
+        return False
+    r = v.get("replay", {})
+    if r.get("kind") != "copula-variance-strip" or r.get("finding") != "F-C04-6" or "margin" not in r:
+        return False
+    try:
+        key = json.dumps({k_: r[k_] for k_ in sorted(r) if k_ not in ("added_by_copula_chain", "added_by_1d_chain", "strip_outside_cube_by_quadrature")},
+                         sort_keys=True, default=str)
+        if key not in _STRIP_CACHE:
+            _STRIP_CACHE[key] = _strip_rerun(r)
+        added_cop, added_1d, explained = _STRIP_CACHE[key]
+        return bool(_under_dispersed(added_cop, added_1d) and explained)
+    except Exception:  # noqa
+        return False
+
+
+_STRIP_CACHE = {}
+
+
 def _set_representation(res, rng, viol, groups, n_cases):
     """LevyTriplet.set_representation driven directly: every (declared representation, target) pair, both variation flags, one call
     and two calls in a row on the same triplet, on truncated dyadic step measures -- (triplet.a, triplet.representation.value)
@@ -629,21 +855,11 @@ def _set_representation(res, rng, viol, groups, n_cases):
         nu = random_step_measure(rng, left - Fr(rng.randrange(0, 9), 4), right + Fr(rng.randrange(0, 9), 4), bits=2, cover=True, max_pieces=5)
         nu.finite_variation = fv
         a = Fr(rng.randrange(-16, 17), 8)
-        # the error value of the generated conversions is a VALUE, not an exception: center_drift on a (mis-declared) ZERO triplet of
-        # infinite variation is err + tails in the model while the code raises; such calls are outside every theorem's guard: skipped
-        cur, skip = rep, False
-        for t in (t1, t2):
-            if t is None or t not in names:
-                break
-            if t == cur:
-                continue
-            if not fv and (t == 1 or cur == 1):          # this call raises; the model returns exactly `err` except for center_drift
-                skip = cur == 1 and t == 2
-                break
-            cur = t
-        if skip:
-            res.bump("setrep", "skipped: CENTER from ZERO/infinite variation (error value not propagated)")
-            continue
+        # the error value of the generated conversions is a VALUE that arithmetic does not propagate (center_drift on a mis-declared
+        # ZERO triplet of infinite variation = err + tails); the observation wrapper step_set_representation makes it absorbing with
+        # the explicit guard setrep_call_raises, and these calls ARE driven (expected: the call raises = None)   [wave 8, audit B5]
+        if not fv and rep == 1 and t1 == 2:
+            res.bump("setrep", "CENTER from ZERO/infinite variation (raises; error made absorbing by the wrapper's guard)")
         ctx = dict(kind="setrep", breaks=[str(b) for b in nu.breaks], dens=[str(d) for d in nu.dens], fv=fv, l=float(left), r=float(right),
                    a=float(a), rep=rep, t1=t1, t2=t2)
         try:
@@ -712,6 +928,13 @@ def replay(path):
         _copula_margins(type("R", (), {"count": lambda *a, **kw: None})(), random.Random(0), lambda what, **kw: out.append((what, kw.get("got"), kw.get("want"))))
         print("still fails:" if out else "no failure on replay", out)
         return 1 if out else 0
+    if k == "copula-variance-strip":
+        added_cop, added_1d, explained = _strip_rerun(data)
+        print("variance added to margin", data["margin"], "by the copula chain:", added_cop, " by its 1-d chain:", added_1d,
+              " deficit = second moment of the strip outside the central cube:", explained)
+        bad = _under_dispersed(added_cop, added_1d)
+        print("still fails" if bad else "no failure on replay")
+        return 1 if bad else 0
     if k == "copula-variance-bg1":
         from rpylib.grid.spatial import CTMCUniformGrid
         from rpylib.process.markovchain.markovchainlevycopula import MarkovChainLevyCopula
